@@ -10,6 +10,7 @@ CONSTANTS
   MaxIx = 3
   MaxDepth = 3
   CellMask = TRUE
+  CopyClear = TRUE
   Valueless = TRUE
   Deviations = {}
 VIEW vw
